@@ -136,6 +136,13 @@ func (p nodeProfile) apply(c *kit.Chain) {
 	}
 }
 
+// scenarioStart is the genesis time of the scenario's chains (zero = the fixed harness epoch); scenarioSetupSpan is how far the
+// chain clock of chain 0 has moved when the set-up is done. Only the wall-clock test sets the former.
+var (
+	scenarioStart     time.Time
+	scenarioSetupSpan time.Duration
+)
+
 // runScenario builds a 2-chain world, attaches the tracer and performs `steps` tape-driven steps on nodes of the given
 // profile. It returns the trace (one line per ABCI response of every chain) and the message-kind histogram.
 func runScenario(ch Chooser, steps int, prof nodeProfile) (trace []string, kinds map[string]int) {
@@ -173,6 +180,7 @@ func runScenario(ch Chooser, steps int, prof nodeProfile) (trace []string, kinds
 		GenesisMutator: mut,
 		ExtraCoins:     sdk.NewCoins(sdk.NewInt64Coin("acoin", 1_000_000), sdk.NewInt64Coin("bcoin", 1_000_000), sdk.NewInt64Coin("ccoin", 1_000_000)),
 		NodeConfig:     nodeConfigs[prof.Config],
+		Start:          scenarioStart,
 		OnChain: func(c *kit.Chain) {
 			c.Trace = func(l string) { trace = append(trace, l) }
 			prof.apply(c)
@@ -202,6 +210,7 @@ func runScenario(ch Chooser, steps int, prof nodeProfile) (trace []string, kinds
 		s.kind("prestate")
 	}
 	w.Tick()
+	scenarioSetupSpan = c0.Now.Sub(c0.Headers[1].Header.Time)
 	actions := []func(){s.send, s.send, s.relayAll, s.relayAll, s.tick, s.convertCoin, s.convertERC20, s.stakingCall, s.govVoteCall, s.bscUpdate, s.bscUpdate,
 		s.ethUpdate, s.tssInject, s.tssUpdate, s.submitProposal, s.submitProposal, s.voteProposals, s.bankSend}
 	for i := 0; i < steps; i++ {
